@@ -109,6 +109,9 @@ def in_solve(obs: Dict[str, Any]) -> Set[str]:
 def c01(case: Dict[str, Any], obs: Dict[str, Any]) -> Optional[str]:
     if obs.get("kind") != "OK":
         return None
+    w = unsolved_constraint_project(case, obs)
+    if w:
+        return w
     pins = {k: v for k, v in solved_map(obs).items() if k in in_solve(obs)}
     for k, (name, ver) in pins.items():
         offered = [c for c in case["universe"].get(k, []) if Version(c[1]) == Version(ver) and c[3] and canon(c[0]) == k]
@@ -127,6 +130,29 @@ def c01(case: Dict[str, Any], obs: Dict[str, Any]) -> Optional[str]:
             t = canon(r.name)
             if t in pins and applies(r, req_extras.get(k, set())) and not r.specifier.contains(v(t), prereleases=True):
                 return f"pin {t}=={pins[t][1]} contradicts requirement {r} of {name}=={ver}"
+    return None
+
+
+def unsolved_constraint_project(case: Dict[str, Any], obs: Dict[str, Any]) -> Optional[str]:
+    """A constraint file that is not all pins is solved like an input: in a successful result every project one of its
+    applicable lines names has a solution (C01: 'the projects solved only because a constraint file mentions them';
+    C08: requirers reached only through constraints are real requirers).  Fully pinned sets are applied as pins and
+    solve nothing."""
+    cons = case.get("constraints") or []
+    if not cons or obs.get("kind") != "OK" or case.get("remove_constraints"):
+        return None
+    reqs = [(n, preq(t)) for (n, lines) in cons for t in lines]
+
+    def pinned(r: Requirement) -> bool:
+        sp = list(r.specifier)
+        return len(sp) == 1 and sp[0].operator == "==" and "*" not in sp[0].version
+    if all(pinned(r) for _, r in reqs):
+        return None
+    nodes = {n["key"]: n for n in obs["graph"]}
+    for cname, r in reqs:
+        k = canon(r.name)
+        if applies(r, set()) and k in nodes and nodes[k]["meta"] is None:
+            return f"constraint file {cname} names {r.name} but the successful result leaves it without a solution"
     return None
 
 
@@ -175,6 +201,9 @@ def clause_set(spec: SpecifierSet) -> List[List[str]]:
 def c08(case: Dict[str, Any], obs: Dict[str, Any]) -> Optional[str]:
     if obs.get("kind") != "OK":
         return None
+    w = unsolved_constraint_project(case, obs)
+    if w:
+        return w
     allpins = solved_map(obs)
     solve = {k: v for k, v in allpins.items() if k in in_solve(obs)}
     req_extras, _ = closure(case, solve, from_inputs_only=False)
@@ -245,7 +274,9 @@ def c09(case: Dict[str, Any], obs: Dict[str, Any]) -> Optional[str]:
                 if binary_only and len(c) > 4 and c[4]:
                     continue    # a source distribution of a project marked binary-only is not eligible
                 v = Version(c[1])
-                if not v.is_prerelease and spec.contains(v, prereleases=False):
+                # (PEP 440: a specifier that itself names a pre-release admits pre-releases; packaging decides with prereleases=None)
+                names_pre = any(Version(cl.version).is_prerelease for cl in spec if "*" not in cl.version and cl.operator != "===")
+                if (not v.is_prerelease and spec.contains(v, prereleases=False)) or (v.is_prerelease and names_pre and spec.contains(v, prereleases=True)):
                     return f"reported no candidate for {obs['name']}{spec} although {c[0]}=={c[1]} is offered, readable and satisfies it"
         if obs.get("graph") is not None and k not in {n["key"] for n in obs["graph"]}:
             return f"failure names {obs['name']} which is not in the dependency graph handed back"
